@@ -34,9 +34,15 @@ def make_path(rng):
     for _ in range(rng.randint(12, 30)):
         roll = rng.random()
         if roll < 0.04 and steps and not retracted:
-            # the path re-homes in the middle (from here on it continues from the origin)
-            steps.append(("home",))
-            pos = {"X": 0, "Y": 0, "Z": 0}
+            # the path re-homes in the middle (from here on it continues from the origin), all
+            # axes or X / Y alone
+            axes = rng.choice(["XYZ", "XYZ", "X", "Y"])
+            steps.append(("home", axes))
+            for axis in axes:
+                pos[axis] = 0
+            if not (safe(pos["X"], pos["Y"]) and gen.disc_safe(pos["X"], pos["Y"])):
+                steps.pop()
+                return regions, steps
             continue
         if roll < 0.06 and steps:
             # a move to where the tool already is (zero-length in the relative encoding),
@@ -139,13 +145,21 @@ def encode(regions, steps, variant, at, rng, shift=(0, 0), erel=False):
                 words.append("E" + (fmt_in(e // STEP) if inch else fmt_mm(e)))
             out.append(("g", "G1 " + " ".join(words), {}))
         elif step[0] == "home":
-            out.append(("g", "G28", {}))
-            pos = {"X": 0, "Y": 0, "Z": 0}
-            off = {"X": 0, "Y": 0, "Z": 0}
-            # ... followed by a move to the (translated) origin in every encoding, so that the
-            # step ends at corresponding places; that move is the event the step is compared at
-            words = [word("X", shift[0]), word("Y", shift[1])]
-            pos["X"], pos["Y"] = shift[0], shift[1]
+            axes = step[1] if len(step) > 1 else "XYZ"
+            out.append(("g", "G28" if axes == "XYZ" else "G28 " + axes, {}))
+            for axis in axes:
+                pos[axis] = 0
+                off[axis] = 0
+            # ... followed by a move to the (translated) origin of the homed axes in every
+            # encoding, so that the step ends at corresponding places; that move is the event the
+            # step is compared at
+            words = []
+            if "X" in axes:
+                words.append(word("X", shift[0]))
+                pos["X"] = shift[0]
+            if "Y" in axes:
+                words.append(word("Y", shift[1]))
+                pos["Y"] = shift[1]
             out.append(("g", "G1 " + " ".join(words), {}))
             indices[-1] = len(out) - 1
         elif step[0] == "eonly":
